@@ -537,3 +537,47 @@ func H08m_many_retained() {
 	vrtAssert("C08.nothing_else_delivered", len(got)-1 == n+len(filters)-2)
 	vrtReach("C08.many_retained")
 }
+
+// H08g_inprocess_subscriber_busy: an in-process subscription (Server.Subscribe) granted a LOWER QoS than a
+// retained message was stored with is still inside its callback for that message - the callback takes
+// its time - when a network client subscribes to the same topic with a grant at least as high as the
+// stored QoS: the client receives the retained message at the stored QoS (min(stored, granted)), with
+// the retain flag and its payload; the in-process subscriber got it at its own grant (round-9 change
+// C08-17: instead of cloning, the stored message itself was set to the lower QoS for the duration of
+// the callback and set back afterwards).
+func H08g_inprocess_subscriber_busy() {
+	b := vrtBroker("mockSuccess")
+	p, _ := b.connect(vrtConnectPkt([]byte("p"), true))
+	sq := 1 + byte(vrtChoice("stored_qos", 2))
+	if sq == 1 {
+		vrtExchange(p, &specPkt{Typ: specPUBLISH, Flags: 2 | 1, ID: 9, Topic: []byte("r"), Payload: []byte("kept")})
+	} else {
+		vrtExchange(p, &specPkt{Typ: specPUBLISH, Flags: 4 | 1, ID: 9, Topic: []byte("r"), Payload: []byte("kept")}, &specPkt{Typ: specPUBREL, Flags: 2, ID: 9})
+	}
+	g := vrtNewGate()
+	var seenQoS byte = 0xff
+	slow := OnPublishFunc(func(m *message.PublishMessage) error {
+		seenQoS = m.QoS()
+		return g.fn(m)
+	})
+	low := byte(vrtChoice("inprocess_grant", int(sq))) // below the stored QoS
+	vrtGo(func() { b.svr.Subscribe("r", low, &slow) })
+	vrtQuiesce() // the in-process subscriber is now inside its callback
+	s, _ := b.connect(vrtConnectPkt([]byte("s"), true))
+	got, ok := vrtParse(vrtExchange(s, &specPkt{Typ: specSUBSCRIBE, ID: 1, Topics: [][]byte{[]byte("r")}, QoS: []byte{2}}))
+	vrtAssert("C08.stream_wellformed", ok)
+	vrtAssert("C08.retained_delivered_on_subscribe", ok && len(got) == 2 && got[1].Typ == specPUBLISH)
+	if ok && len(got) == 2 {
+		vrtAssert("C08.retained_qos_downgraded", (got[1].Flags>>1)&3 == sq)
+		vrtAssert("C08.retain_flag_set_on_subscribe", got[1].Flags&1 == 1)
+		vrtAssert("C08.retained_payload", vrtBytesEq(got[1].Payload, []byte("kept")))
+	}
+	g.release()
+	vrtJoin()
+	vrtAssert("C08.inprocess_subscriber_gets_its_own_grant", seenQoS == low)
+	// and afterwards the stored copy is what it was
+	s2, _ := b.connect(vrtConnectPkt([]byte("s2"), true))
+	got2, ok2 := vrtParse(vrtExchange(s2, &specPkt{Typ: specSUBSCRIBE, ID: 1, Topics: [][]byte{[]byte("r")}, QoS: []byte{2}}))
+	vrtAssert("C08.stored_copy_intact", ok2 && len(got2) == 2 && (got2[1].Flags>>1)&3 == sq)
+	vrtReach("C08.inprocess_subscriber_busy")
+}
